@@ -31,6 +31,12 @@ pub fn snapshot_of(sc: &Scenario, tape: &Tape) -> Result<dusk_plonk::verif::Snap
 pub enum HostFault {
     Witness(usize, WFault),
     Twin(usize, BlsScalar),
+    /// The instance is synthesised from a program that differs from the compiled one in one
+    /// selector value of one arithmetic row, and the output witness of that row (allocation
+    /// instant `at`) holds the value that satisfies the *compiled* row: every wire value equals the
+    /// honest instance's, only the selectors the instance carries differ.  The compiled description
+    /// is what an instance is proved against, so the prover must return a proof.
+    SelectorTwin { prog: std::sync::Arc<crate::program::Program>, at: usize, value: BlsScalar },
 }
 
 impl HostFault {
@@ -38,6 +44,14 @@ impl HostFault {
         match self {
             HostFault::Witness(_, f) => f.kind(),
             HostFault::Twin(..) => "witness.rewired_twin",
+            HostFault::SelectorTwin { .. } => "instance.other_selectors_same_wire_values",
+        }
+    }
+    /// The program the faulty host synthesises the instance from.
+    pub fn program<'a>(&'a self, sc: &'a Scenario) -> &'a std::sync::Arc<crate::program::Program> {
+        match self {
+            HostFault::SelectorTwin { prog, .. } => prog,
+            _ => &sc.prog,
         }
     }
     pub fn arm(&self) {
@@ -47,6 +61,7 @@ impl HostFault {
                 wfault::arm_counter();
                 crate::program::set_twin(Some((*at, *d)));
             }
+            HostFault::SelectorTwin { at, value, .. } => wfault::arm(*at, WFault::Random(*value)),
         }
     }
     pub fn disarm() -> wfault::Fired {
@@ -88,7 +103,7 @@ pub fn deploy_scenario(ctx: &mut RunCtx, sc: &Scenario, env: &EnvCfg) -> Result<
 pub fn faulted_request(ctx: &mut RunCtx, sc: &Scenario, dep: &Deployment, fault: &HostFault, env_p: &EnvCfg, env_v: &EnvCfg, case: usize) -> Result<(), Violation> {
     // 1. what the host's memory looks like: synthesise the instance under the fault and snapshot it
     fault.arm();
-    let snap = guarded(|| snapshot_of(sc, &sc.tape));
+    let snap = guarded(|| crate::program::snapshot_of(fault.program(sc), &sc.tape));
     let fired = HostFault::disarm();
     let snap = match snap {
         Ok(s) => s,
@@ -96,7 +111,7 @@ pub fn faulted_request(ctx: &mut RunCtx, sc: &Scenario, dep: &Deployment, fault:
     };
     if fired.fired {
         ctx.st.fault(fault.kind());
-    } else if matches!(fault, HostFault::Twin(..)) {
+    } else if matches!(fault, HostFault::Twin(..) | HostFault::SelectorTwin { .. }) {
         ctx.st.fault(fault.kind());
     } else {
         ctx.st.probe("fault_instant_beyond_last_allocation");
@@ -104,7 +119,7 @@ pub fn faulted_request(ctx: &mut RunCtx, sc: &Scenario, dep: &Deployment, fault:
     // 2. the prover, under the same fault
     fault.arm();
     let mut rng = ScriptedRng::new(sc.rng_seed ^ case as u64);
-    let res = guarded(|| deploy::prove(&dep.prover, &sc.prog, &sc.tape, &mut rng, PlonkVersion::V3, env_p));
+    let res = guarded(|| deploy::prove(&dep.prover, fault.program(sc), &sc.tape, &mut rng, PlonkVersion::V3, env_p));
     HostFault::disarm();
     ctx.st.steps += 1;
     let res = match res {
@@ -121,7 +136,7 @@ pub fn faulted_request(ctx: &mut RunCtx, sc: &Scenario, dep: &Deployment, fault:
     ctx.note("row_evaluator", J::s(format!("{:?}", verdict)));
     ctx.st.log(digest(format!("{:?}|{}", verdict, res.is_ok()).as_bytes()));
     let sig = scenario_sig(sc) ^ digest(desc.as_bytes());
-    ctx.st.eval(sig, fired.changed || matches!(fault, HostFault::Twin(..)));
+    ctx.st.eval(sig, fired.changed || matches!(fault, HostFault::Twin(..) | HostFault::SelectorTwin { .. }));
     match (verdict, res) {
         (None, Err(e)) => {
             // synthesis itself returned an error; the prover must report it
@@ -169,7 +184,61 @@ pub fn faulted_request(ctx: &mut RunCtx, sc: &Scenario, dep: &Deployment, fault:
     }
 }
 
+/// See `HostFault::SelectorTwin`.
+pub fn selector_twin(f: &mut crate::prng::Rng, sc: &Scenario) -> Option<HostFault> {
+    use crate::program::{Op, Program};
+    let sites: Vec<usize> = sc
+        .prog
+        .ops
+        .iter()
+        .enumerate()
+        .filter(|(_, op)| matches!(op, Op::EvalOut { q, .. } if q[3] != BlsScalar::zero()) || matches!(op, Op::GateAdd { .. } | Op::GateMul { .. }))
+        .map(|(i, _)| i)
+        .collect();
+    if sites.is_empty() {
+        return None;
+    }
+    let i = sites[f.usize(sites.len())];
+    let mut p: Program = (*sc.prog).clone();
+    let delta = if f.chance(1, 2) { BlsScalar::one() } else { f.scalar() };
+    let scaling = f.chance(1, 3);
+    match &mut p.ops[i] {
+        Op::EvalOut { q, .. } => {
+            let j = if scaling { f.usize(3) } else { 5 };
+            q[j] += delta;
+        }
+        Op::GateAdd { l, c, .. } => {
+            if scaling {
+                *l += delta
+            } else {
+                *c += delta
+            }
+        }
+        Op::GateMul { m, c, .. } => {
+            if scaling {
+                *m += delta
+            } else {
+                *c += delta
+            }
+        }
+        _ => return None,
+    }
+    let honest = crate::program::snapshot_of(&sc.prog, &sc.tape).ok()?;
+    let other = crate::program::snapshot_of(&p, &sc.tape).ok()?;
+    if honest.witnesses.len() != other.witnesses.len() {
+        return None;
+    }
+    // the first stored value that differs is the output of the edited row
+    let at = (0..honest.witnesses.len()).find(|k| honest.witnesses[*k] != other.witnesses[*k])?;
+    Some(HostFault::SelectorTwin { prog: std::sync::Arc::new(p), at, value: honest.witnesses[at] })
+}
+
 pub fn gen_fault(f: &mut crate::prng::Rng, sc: &Scenario, dep: &Deployment) -> HostFault {
+    if f.chance(1, 8) {
+        if let Some(t) = selector_twin(f, sc) {
+            return t;
+        }
+    }
     let sites = crate::program::twin_sites(&sc.prog);
     if !sites.is_empty() && f.chance(1, 6) {
         let at = sites[f.usize(sites.len())];
